@@ -306,6 +306,10 @@ impl Compiler {
     }
 
     fn compile_statement(&mut self, stmt: &Stmt) -> Result<(), Error> {
+        // verification harness: scheduler yield point (statement granularity while compiling)
+        #[cfg(feature = "verif")]
+        crate::verif::phase();
+
         match stmt {
             Stmt::Expr(expr) => {
                 self.compile_expression(expr)?;
